@@ -703,6 +703,126 @@ pub fn gen_impl_bounds(files: &BTreeMap<String, syn::File>, out: &mut String) {
     writeln!(out, "\n(* every trait impl for a type built from GenericArray / GenericArrayIter: (file, impl header, the bounds on\n   its type parameters: generic-parameter bounds and where-predicates, normalised, sorted) *)\nDefinition gen_impl_bounds : list (String.string * String.string * list String.string) :=\n  [{}]%string.", rows.join(";\n   ")).unwrap();
 }
 
+// ------------------------------------------------------------------ thin bodies (T1)
+
+/// every method of an impl (for a type built from GenericArray / GenericArrayIter) and every default method
+/// of the crate's sequence traits whose body is ONE expression (possibly inside `unsafe`): the glue around
+/// the modelled core, as normalised token text
+pub fn gen_thin_bodies(files: &BTreeMap<String, syn::File>, out: &mut String) {
+    use syn::{Expr, Stmt};
+    fn one_expr(b: &syn::Block) -> Option<String> {
+        if b.stmts.len() != 1 {
+            return None;
+        }
+        match &b.stmts[0] {
+            Stmt::Expr(Expr::Unsafe(u), None) => one_expr(&u.block).map(|t| format!("unsafe {{ {} }}", t)),
+            Stmt::Expr(e, None) => {
+                let t: String = e.to_token_stream().to_string().split_whitespace().collect::<Vec<_>>().join(" ");
+                if t.len() <= 160 {
+                    Some(t)
+                } else {
+                    None
+                }
+            }
+            _ => None,
+        }
+    }
+    let norm = |s: String| -> String {
+        let mut t: String = s.split_whitespace().collect::<Vec<_>>().join("");
+        for lt in ["'a", "'de"] {
+            t = t.replace(lt, "");
+        }
+        t
+    };
+    let esc = |s: &str| s.replace('"', "\"\"");
+    let mut rows = vec![];
+    for fname in ["lib.rs", "impls.rs", "iter.rs", "sequence.rs", "functional.rs", "impl_alloc.rs", "impl_serde.rs", "impl_zeroize.rs", "impl_const_default.rs", "hex.rs", "internal.rs"] {
+        let Some(file) = files.get(fname) else { continue };
+        for it in &file.items {
+            match it {
+                Item::Impl(im) => {
+                    let st = im.self_ty.to_token_stream().to_string();
+                    if !st.contains("GenericArray") && !st.contains("ArrayBuilder") && !st.contains("ArrayConsumer") {
+                        continue;
+                    }
+                    let header = match &im.trait_ {
+                        Some((_, tr, _)) => format!("{} for {}", norm(tr.to_token_stream().to_string()), norm(st)),
+                        None => norm(st),
+                    };
+                    for ii in &im.items {
+                        if let ImplItem::Fn(f) = ii {
+                            if let Some(t) = one_expr(&f.block) {
+                                rows.push(format!("(\"{}\", \"{}\", \"{}\", \"{}\")", fname, esc(&header), f.sig.ident, esc(&t)));
+                            }
+                        }
+                    }
+                }
+                Item::Trait(tr) => {
+                    for ti in &tr.items {
+                        if let syn::TraitItem::Fn(m) = ti {
+                            if let Some(b) = &m.default {
+                                if let Some(t) = one_expr(b) {
+                                    rows.push(format!("(\"{}\", \"trait {}\", \"{}\", \"{}\")", fname, tr.ident, m.sig.ident, esc(&t)));
+                                }
+                            }
+                        }
+                    }
+                }
+                _ => {}
+            }
+        }
+    }
+    writeln!(out, "\n(* every method whose body is one expression: (file, impl header or trait, method, body) as normalised token text *)\nDefinition gen_thin_bodies : list (String.string * String.string * String.string * String.string) :=\n  [{}]%string.", rows.join(";\n   ")).unwrap();
+}
+
+// ------------------------------------------------------------------ short multi-statement bodies (T1)
+
+/// the few short bodies that are neither one expression nor translated into one of the program languages:
+/// ArrayBuilder::assume_init, IntrusiveArrayBuilder::finish (src/internal.rs), const_transmute (src/lib.rs),
+/// statement by statement as normalised token text
+pub fn gen_small_bodies(files: &BTreeMap<String, syn::File>, out: &mut String) {
+    let esc = |s: String| s.replace('"', "\"\"");
+    let norm = |t: String| t.split_whitespace().collect::<Vec<_>>().join(" ");
+    let mut rows = vec![];
+    let stmts_of = |b: &syn::Block| -> Vec<String> { b.stmts.iter().map(|s| esc(norm(s.to_token_stream().to_string()))).collect() };
+    for (fname, owner, func) in [
+        ("internal.rs", "ArrayBuilder", "assume_init"),
+        ("internal.rs", "IntrusiveArrayBuilder", "finish"),
+        ("lib.rs", "", "const_transmute"),
+        ("lib.rs", "GenericArray", "from_slice"),
+        ("lib.rs", "GenericArray", "try_from_slice"),
+        ("lib.rs", "GenericArray", "from_mut_slice"),
+    ] {
+        let Some(file) = files.get(fname) else { continue };
+        let mut found: Vec<Vec<String>> = vec![];
+        for it in &file.items {
+            match it {
+                Item::Fn(f) if owner.is_empty() && f.sig.ident == func => found.push(stmts_of(&f.block)),
+                Item::Impl(im) if !owner.is_empty() && im.trait_.is_none() => {
+                    let st = im.self_ty.to_token_stream().to_string();
+                    if st.split(|c: char| !c.is_alphanumeric() && c != '_').next() != Some(owner) {
+                        continue;
+                    }
+                    for ii in &im.items {
+                        if let ImplItem::Fn(f) = ii {
+                            if f.sig.ident == func {
+                                found.push(stmts_of(&f.block));
+                            }
+                        }
+                    }
+                }
+                _ => {}
+            }
+        }
+        if found.len() != 1 {
+            println!("ERROR GenSigs.v small_bodies {}::{}: found {} definitions", owner, func, found.len());
+            continue;
+        }
+        rows.push(format!("(\"{}\", \"{}\", [{}])", owner, func, found[0].iter().map(|x| format!("\"{}\"", x)).collect::<Vec<_>>().join(";\n      ")));
+    }
+    writeln!(out, "\n(* the short multi-statement bodies not translated into a program language: (owner, fn, statements) *)\nDefinition gen_small_bodies : list (String.string * String.string * list String.string) :=\n  [{}]%string.", rows.join(";\n   ")).unwrap();
+}
+
 // ------------------------------------------------------------------ impl_tuple! bodies (T1)
 
 /// the two `fn from(..) -> Self { .. }` bodies inside macro_rules! impl_tuple, as normalised token text
